@@ -67,6 +67,9 @@ pub struct GraphCfg {
     pub hostile: bool,
     /// Calm programs: no parity leaves and no oversize outputs, inner nodes mostly fold (keeps big graphs acceptable).
     pub calm: bool,
+    /// Chance (in 100) that one solution declares so many extra mutations (keys outside the small universe) that the
+    /// set's declared total is 998..1000: whatever is computed on top crosses the 1000 mark.
+    pub bulk_pct: usize,
 }
 
 impl Default for GraphCfg {
@@ -83,6 +86,7 @@ impl Default for GraphCfg {
             duplicate_solution_pct: 0,
             hostile: false,
             calm: false,
+            bulk_pct: 2,
         }
     }
 }
@@ -151,14 +155,17 @@ pub fn sol_tag(i: usize) -> i64 {
     100 + i as i64
 }
 
-/// A key from the small universe: [a, b] with b around the solution tags or at the carry boundary, or a single word.
+/// A key from the small universe: [a, b] with b around the solution tags or at the carry boundary, a single word, or
+/// (rarely) the empty key.
 fn pick_key(ch: &mut Chooser) -> Vec<i64> {
     let a = key_universe_first()[ch.weighted(&[4, 3, 1, 1, 1])];
-    match ch.weighted(&[6, 1, 1, 1]) {
+    match ch.weighted(&[12, 2, 2, 2, 1]) {
         0 => vec![a, 100 + ch.pick(6) as i64],
         1 => vec![a, i64::MAX],
         2 => vec![a, i64::MIN],
-        _ => vec![ch.pick(4) as i64],
+        3 => vec![ch.pick(4) as i64],
+        // the empty key: it has no successor, a range starting there holds one key
+        _ => vec![],
     }
 }
 
@@ -564,6 +571,14 @@ pub fn build_case(choices: Vec<u32>, cfg: &GraphCfg) -> GraphCase {
             data,
             mutations,
         });
+    }
+    if ch.chance(cfg.bulk_pct, 100) {
+        let i = ch.pick(solutions.len());
+        let declared: usize = solutions.iter().map(|s| s.mutations.len()).sum();
+        let pad = (1000 - ch.pick(3)).saturating_sub(declared);
+        for j in 0..pad {
+            solutions[i].mutations.push((vec![7, j as i64], vec![1]));
+        }
     }
     if ch.chance(cfg.duplicate_solution_pct, 100) {
         let i = ch.pick(solutions.len());
